@@ -13,6 +13,7 @@ that splits a regime raises `NeedSplit` and the driver evaluates both halves) an
 from __future__ import annotations
 
 import ast
+import builtins
 from fractions import Fraction
 
 from . import e2_formula as F
@@ -76,6 +77,42 @@ class Emit:
         return f"emit[{len(self.frames)}]{self.value!r}"
 
 
+_LOCALS = {}
+
+
+def local_names(fn):
+    """names the function binds anywhere in its own scope (Python makes them local): parameters, assignment / loop / with / import targets, nested defs"""
+    k = id(fn)
+    if k in _LOCALS:
+        return _LOCALS[k]
+    out = set()
+    a = fn.args
+    for x in a.posonlyargs + a.args + a.kwonlyargs:
+        out.add(x.arg)
+    if a.vararg:
+        out.add(a.vararg.arg)
+    if a.kwarg:
+        out.add(a.kwarg.arg)
+    stack = list(fn.body)
+    while stack:
+        n = stack.pop()
+        if isinstance(n, (ast.FunctionDef, ast.AsyncFunctionDef, ast.ClassDef)):
+            out.add(n.name)
+            continue
+        if isinstance(n, ast.Lambda):
+            continue
+        if isinstance(n, ast.Name) and isinstance(n.ctx, (ast.Store, ast.Del)):
+            out.add(n.id)
+        elif isinstance(n, (ast.Import, ast.ImportFrom)):
+            for al in n.names:
+                out.add((al.asname or al.name).split(".")[0])
+        elif isinstance(n, (ast.ListComp, ast.SetComp, ast.DictComp, ast.GeneratorExp)):
+            continue
+        stack.extend(ast.iter_child_nodes(n))
+    _LOCALS[k] = out
+    return out
+
+
 def is_generator(fn):
     stack = list(fn.body)
     while stack:
@@ -133,6 +170,16 @@ class World:
                 self.table["self." + nm] = f
                 self.table[cls + "." + nm] = f
         self.consts = module_consts(self.mod)
+        self.module_names = set()
+        for st_ in self.mod.tree.body:
+            for x in ast.walk(st_) if not isinstance(st_, (ast.FunctionDef, ast.AsyncFunctionDef, ast.ClassDef)) else [st_]:
+                if isinstance(x, (ast.FunctionDef, ast.AsyncFunctionDef, ast.ClassDef)):
+                    self.module_names.add(x.name)
+                elif isinstance(x, ast.Name) and isinstance(x.ctx, ast.Store):
+                    self.module_names.add(x.id)
+                elif isinstance(x, (ast.Import, ast.ImportFrom)):
+                    for al in x.names:
+                        self.module_names.add((al.asname or al.name).split(".")[0])
         self.class_consts = {}
         cdef = self.mod.classes.get(cls)
         if cdef is not None:
@@ -259,11 +306,14 @@ class OP4Eval(AutoEvaluator):
         self.W = world
         self.fn = fn
         self.qual = qual or (getattr(fn, "_vqual", None) if fn is not None else "?")
+        if fn is not None and getattr(fn, "_vqual", None):
+            world.ctx.src.funcs_consulted.add(f"{world.mod.rel}:{fn._vqual}")
         self.depth = depth
         self.buffers = set()
         self.loopctl = None
         self.on_yield = None
         self.in_try = 0
+        self.locals = local_names(fn) if fn is not None else set()
         self.alts = []              # early returns of undecided arms: (value, input position)
         self.retval = None
         self.raised = False
@@ -627,6 +677,11 @@ class OP4Eval(AutoEvaluator):
                     self._folding = set(self._folding) - {node.id}
             if node.id in ("None", "True", "False"):
                 return F.sym(node.id)
+            if self.fn is not None:
+                if node.id in self.locals:
+                    return Unknown(f"local name `{node.id}` is read before it is bound")
+                if node.id not in W.module_names and not hasattr(builtins, node.id):
+                    return Unknown(f"name `{node.id}` is not defined")
             return F.sym(node.id)
         if t is ast.Attribute:
             d = dotted(node)
@@ -1030,6 +1085,7 @@ class OP4Eval(AutoEvaluator):
         q = fv.qual or ""
         is_method = q.count(".") >= 1 and q.split(".")[0] == self.W.cls and q.count(".") == 1
         if params and params[0] in ("self", "cls") and is_method:
+            env[params[0]] = F.sym(params[0])
             params = params[1:]
         if a.vararg or a.kwarg or "**" in kw or any(isinstance(x, Star) for x in pos):
             return Unknown(f"call of {q} with *args / **kwargs")
@@ -1851,12 +1907,14 @@ def bind_positional(fn, values, ev=None):
     parameters are called; parameters left over get their defaults"""
     a = fn.args
     params = [x.arg for x in a.posonlyargs + a.args]
+    env = {}
     if params and params[0] in ("self", "cls"):
+        env[params[0]] = F.sym(params[0])
         params = params[1:]
     vals = list(values)
     if len(vals) > len(params):
         raise Unsupported(f"{fn.name}: {len(params)} parameters for {len(vals)} values")
-    env = dict(zip(params, vals))
+    env.update(zip(params, vals))
     dflt = dict(zip(params[::-1], (a.defaults or [])[::-1]))
     for p_ in params[len(vals):]:
         if p_ in dflt and ev is not None:
